@@ -11,3 +11,10 @@ func init() { Registry["DEVTRACE"] = devTrace }
 func devTrace(run *vf.Run) {
 	eng.TraceFamily(run, "rand", 600, 100, eng.GenOpts{MaxRules: 4, MaxEntries: 4, Flow: true, Actions: true, Chains: true, Engines: []string{"On", "On", "DetectionOnly"}}, 1)
 }
+
+func init() {
+	Registry["DEVFLOW"] = func(run *vf.Run) { FlowTraceStage(run, "profiles", "crs", "generated") }
+	Registry["DEVFLOWP"] = func(run *vf.Run) { FlowTraceStage(run, "profiles") }
+	Registry["DEVFLOWC"] = func(run *vf.Run) { FlowTraceStage(run, "crs") }
+	Registry["DEVFLOWG"] = func(run *vf.Run) { FlowTraceStage(run, "generated") }
+}
